@@ -103,7 +103,6 @@ Qed.
 Section CdfMono.
 Variable v : view.
 Hypothesis Hwf : wf_view v.
-Hypothesis Htight : unit_ends_tight v.
 
 Lemma F2_nondecr : forall sp l, strictly_increasing sp = true ->
   Forall2 (fun p r => rank v p = Ok (Some r)) sp l -> nondecr (l ++ [1]).
@@ -112,11 +111,11 @@ Proof.
   destruct sp as [|p' sp].
   - inversion H4; subst. cbn. split; auto. eapply rank_range; eauto.
   - inversion H4; subst. cbn [app nondecr]. split.
-    + apply (rank_mono v Hwf Htight p p'); auto. apply Qlt_le_weak. eapply strictly_increasing_head; eauto.
+    + apply (rank_mono v Hwf p p'); auto. apply Qlt_le_weak. eapply strictly_increasing_head; eauto.
     + apply (IH (y0 :: l'0)); [eapply strictly_increasing_tail; eauto|exact H4].
 Qed.
 
-(* with unit_ends_tight: cdf is non-decreasing and every pmf entry is non-negative *)
+(* cdf is non-decreasing and every pmf entry is non-negative *)
 Theorem cdf_nondecr sp c : strictly_increasing sp = true -> cdf v sp = Ok (Some c) -> nondecr c.
 Proof.
   intros H Hc. destruct (cdf_ok v Hwf sp H) as (l & E & F). rewrite E in Hc. inversion Hc; subst c.
